@@ -58,7 +58,7 @@ TABLE: list[tuple[str, str, bool, str, list[F]]] = [
         "Vals",
         "Expr",
         False,
-        "",
+        "    KIND: ClassVar[str] = 'vals'  # class-level constants: not fields\n    PROTO: ClassVar[Expr | None] = None\n",
         [
             F("s", "str", "prop", "str"),
             F("i", "int", "prop", "int", "0"),
@@ -167,7 +167,7 @@ from __future__ import annotations
 import enum
 from dataclasses import dataclass, field
 from pathlib import Path
-from typing import Literal, Any, NewType
+from typing import Literal, Any, NewType, ClassVar
 from mashumaro.types import SerializableType
 
 UserId = NewType("UserId", str)
